@@ -108,7 +108,8 @@ def space(tier, seed):
                 if not thorough and a["kind"] == b["kind"] and a["st"] != b["st"] and a["kind"] != "big":
                     continue
             for c in cfgs:
-                items.append({"net": netname, "sessions": ss, "cfg": c, "pairs": False})
+                # single-session histories run with a period that is not a whole number of minutes
+                items.append({"net": netname, "sessions": ss, "cfg": c, "pairs": False, "period": 2.5 if len(ss) == 1 else 5})
         if thorough:
             # every ordered pair of interruption points on a reduced session alphabet, and 3-subsets with single points
             pool2 = [sess(st, a, sy, kd, j) for j, (st, a, sy, kd) in enumerate(itertools.product(stations, (0, 1), (1, 3), ("big", "small", "l2c")))]
@@ -124,7 +125,7 @@ def space(tier, seed):
         for other in (None, ("PS-A", 0, 3, "big"), ("PS-C", 1, 2, "l2c")):
             ss = [dict(sess("PS-B", a, sy, kd, 0), sid="ev0")] + ([dict(sess(*other, 1), sid="ev1")] if other else [])
             for c in ("fcfs-k1", "fcfs-kN-rc-h", "unc-k1-rc-h"):
-                items.append({"net": "N13", "sessions": ss, "cfg": c, "pairs": False})
+                items.append({"net": "N13", "sessions": ss, "cfg": c, "pairs": False, "period": 7.5 if kd == "small" else 5})
     # ---- the same vehicle twice: two sessions built around ONE Battery object (the second continues where the first stopped)
     for st2, a2 in (("PS-A", 3), ("PS-A", 4), ("PS-C", 2)):
         # two-stage battery in its ramp-down region: what the second visit draws depends on what the first one stored
@@ -136,7 +137,7 @@ def space(tier, seed):
 
 def scenario(item):
     sched, k, rc, hist = CFGS[item["cfg"]]
-    scn = {"net": item["net"], "sessions": item["sessions"], "sched": sched, "k": k, "recompute": rc, "period": 5}
+    scn = {"net": item["net"], "sessions": item["sessions"], "sched": sched, "k": k, "recompute": rc, "period": item.get("period", 5)}
     # pending recompute requests carry a user-chosen precedence (still after plug-ins): a dump must carry it
     scn["rc_prec"] = 27
     # stations are registered (and constraints inserted) in a non-alphabetical order: a dump/load that
